@@ -338,6 +338,46 @@ impl Property for C05 {
             o.class(format!("kind-{k}"));
         }
         o.fail = failure_for(&out, &["C05/"]);
+        // the publishes of the history, cut by a connection loss and resumed under a small Receive
+        // Maximum: the acknowledgements arriving on the new connection complete the original futures
+        if o.fail.is_none() {
+            use super::misc::{run_c17, Ago, C17Case, Expiry, Step};
+            let steps: Vec<Step> = case
+                .events
+                .iter()
+                .filter_map(|e| match e {
+                    Ev::Start { kind: OpKind::Pub1, .. } => Some(Step::Pub1),
+                    Ev::Start { kind: OpKind::Pub2, .. } => Some(Step::Pub2),
+                    Ev::In(Inbound::Ack { sel, .. }) => Some(if sel % 2 == 0 { Step::AckOldest } else { Step::AckNewest }),
+                    _ => None,
+                })
+                .take(14)
+                .collect();
+            let h = case_hash(case);
+            if steps.iter().filter(|s| matches!(s, Step::Pub1 | Step::Pub2)).count() >= 2 && (h % 4 == 0 || case.events.len() > 12) {
+                let c17 = C17Case {
+                    history: steps,
+                    expiry: Expiry::Never,
+                    connack_repeats: h % 2 == 0,
+                    ago: Ago::Now,
+                    queued_during_outage: false,
+                    second_outage: 0,
+                    failed_attempts: vec![],
+                    via_auth: h % 5 == 0,
+                    r2: 1 + (h / 2 % 3) as u16,
+                };
+                let mut o2 = Outcome::ok();
+                if let Some(f) = run_c17(&c17, c17.history.len(), &mut o2) {
+                    if f.sig == "C17/alive/original-future-not-completed" || f.sig.starts_with("PANIC/") {
+                        o.fail = Some(Failure {
+                            sig: if f.sig.starts_with("PANIC/") { f.sig.clone() } else { "C05/not-completed/on-the-resumed-connection".into() },
+                            msg: format!("[the history's publishes, resumed after a connection loss under Receive Maximum {}] {}", c17.r2, f.msg),
+                        });
+                    }
+                }
+                o.class("also-resumed-after-a-connection-loss");
+            }
+        }
         o
     }
 }
